@@ -159,6 +159,17 @@ def oracleC06 (c : TCase) : Verdict :=
           if nxt == successorSpec rd status then s
           else { s with fail := some s!"state after the head is {nxt}, the rules give {successorSpec rd status} (mode {modeSpec rd}, status {status})" }
         | _, _ => s
+      | "bread" =>
+        -- a length-delimited body: what remains is what was expected minus what was delivered
+        (match s.expect, t.res with
+         | some (.ok (.len n), st), ["bytes", i, _] => { s with expect := some (.ok (.len (n - i.toNat!)), st) }
+         | _, _ => s)
+      | "canproceed" =>
+        if t.st != "recvBody" then s else
+        (match s.expect, t.res with
+         | some (.ok (.len n), _), ["bool", b] =>
+           if (b == "true") == (n == 0) then s else { s with fail := some s!"body complete={b} with {n} bytes of the declared length outstanding" }
+         | _, _ => s)
       | "mode" =>
         match s.expect, t.res with
         | some (.ok rd, _), ["str", mtxt] =>
